@@ -274,3 +274,116 @@ func (p *Program) errCheckOf(info *types.Info, cond ast.Expr) (call *ast.CallExp
 	}
 	return nil, false
 }
+
+// callerWithin reports whether fi is one of the allowed functions, or a private helper (unexported, never used
+// as a value) all of whose call sites are in functions that are themselves within the allowed set (two levels):
+// a block extracted from an allowed function into a helper does not create a new kind of caller.
+func (p *Program) callerWithin(fi *FuncInfo, allowed []string, depth int) bool {
+	for _, a := range allowed {
+		if a == fi.Name {
+			return true
+		}
+	}
+	if depth >= 2 || fi.Obj == nil || fi.Obj.Exported() {
+		return false
+	}
+	nsites, ok := 0, true
+	for _, caller := range p.SortedFuncs() {
+		if caller.Decl.Body == nil || caller.Pkg != fi.Pkg {
+			continue
+		}
+		info := caller.Pkg.TypesInfo
+		ast.Inspect(caller.Decl.Body, func(n ast.Node) bool {
+			id, isId := n.(*ast.Ident)
+			if !isId || info.Uses[id] != types.Object(fi.Obj) {
+				return true
+			}
+			// the identifier must be the function of a call (possibly through a selector)
+			var fun ast.Node = id
+			if sel, isSel := p.Parent(id).(*ast.SelectorExpr); isSel && sel.Sel == id {
+				fun = sel
+			}
+			c, isCall := p.Parent(fun).(*ast.CallExpr)
+			if !isCall || c.Fun != fun {
+				ok = false // used as a value: callers unknown
+				return true
+			}
+			nsites++
+			if caller != fi && !p.callerWithin(caller, allowed, depth+1) {
+				ok = false
+			}
+			return true
+		})
+	}
+	return ok && nsites > 0
+}
+
+// resolveValue follows e (evaluated in fi) through single-assignment local variables and, when e is a parameter
+// of a private function with exactly one call site, through the argument passed there. It returns the function
+// and expression at which resolution stopped.
+func (p *Program) resolveValue(fi *FuncInfo, e ast.Expr, depth int) (*FuncInfo, ast.Expr) {
+	e = ast.Unparen(e)
+	if depth > 4 {
+		return fi, e
+	}
+	info := fi.Pkg.TypesInfo
+	id, ok := e.(*ast.Ident)
+	if !ok {
+		return fi, e
+	}
+	obj := info.Uses[id]
+	if obj == nil {
+		return fi, e
+	}
+	// parameter of a private helper with one call site
+	if v, isVar := obj.(*types.Var); isVar && fi.Obj != nil && !fi.Obj.Exported() {
+		sig := fi.Obj.Type().(*types.Signature)
+		for i := 0; i < sig.Params().Len(); i++ {
+			if sig.Params().At(i) != v {
+				continue
+			}
+			if !neverAssigned(info, fi.Decl.Body, obj) {
+				return fi, e
+			}
+			var site *ast.CallExpr
+			var siteFn *FuncInfo
+			n := 0
+			for _, caller := range p.SortedFuncs() {
+				if caller.Decl.Body == nil || caller.Pkg != fi.Pkg {
+					continue
+				}
+				for _, c := range callsIn(caller.Decl.Body) {
+					if fn := calleeOf(caller.Pkg.TypesInfo, c); fn != nil && p.FuncOf(fn) == fi {
+						n++
+						site, siteFn = c, caller
+					}
+				}
+			}
+			if n == 1 && i < len(site.Args) {
+				return p.resolveValue(siteFn, site.Args[i], depth+1)
+			}
+			return fi, e
+		}
+	}
+	if singleAssigned(info, fi.Decl.Body, obj) {
+		if d := localDef(info, fi, id); d != nil {
+			return p.resolveValue(fi, d, depth+1)
+		}
+	}
+	return fi, e
+}
+
+// privateCallees: the unexported functions of fi's package that fi calls directly (bodies available).
+func (p *Program) privateCallees(fi *FuncInfo) []*FuncInfo {
+	seen := map[*FuncInfo]bool{}
+	var out []*FuncInfo
+	for _, c := range callsIn(fi.Decl.Body) {
+		if fn := calleeOf(fi.Pkg.TypesInfo, c); fn != nil {
+			if callee := p.FuncOf(fn); callee != nil && callee != fi && callee.Decl.Body != nil && callee.Pkg == fi.Pkg && !fn.Exported() && !seen[callee] {
+				seen[callee] = true
+				out = append(out, callee)
+			}
+		}
+	}
+	return out
+}
